@@ -238,6 +238,16 @@ fn altered(r: &mut Rng, d: &str) -> Vec<(&'static str, String)> {
     }
     out.push(("repadded", format!("{}=", d)));
     out.push(("repadded", format!("{}==", d)));
+    // the genuine text with a line break, blank or tab spliced in (a token that was wrapped, copied from a mail ...): it is not the
+    // text the digest was computed over
+    {
+        let mid = d.len() / 2;
+        let brk = *r.pick(&["\r", "\n", "\r\n", " ", "\t", "\u{a0}", "\u{200b}"]);
+        out.push(("respelled-with-break", format!("{}{}", brk, d)));
+        out.push(("respelled-with-break", format!("{}{}", d, brk)));
+        out.push(("respelled-with-break", format!("{}{}{}", &d[..mid], brk, &d[mid..])));
+        out.push(("respelled-with-break", format!("{}\n{}", &d[..d.len().min(7)], &d[d.len().min(7)..])));
+    }
     if d.len() > 4 {
         out.push(("truncated", d[..d.len() - r.range(1, 3)].to_string()));
         out.push(("truncated", d[1..].to_string()));
@@ -289,7 +299,17 @@ fn garbage(r: &mut Rng) -> (&'static str, String) {
     let nonb64 = ["!!!", "not base64", "%%%", "a", "A", "=", "ÿ", "e30=", "W10.", " ", "\"", "\\u0000", "{}", "Zm9v\n"];
     let nonjson = ["not json", "{", "[1,2", "[\"s\",\"n\",", "\u{0}", "['s','n','v']", "[\"s\",\"n\",\"v\"] trailing", ""];
     let odd_json = ["{\"a\":1}", "\"str\"", "7", "null", "[]", "[\"only-salt\"]", "[\"s\",\"n\",\"v\",\"extra\"]", "[\"s\",\"n\",\"v\",\"e\",\"f\"]", "[1,2,3]", "[\"s\",7,\"v\"]", "[[\"s\",\"n\",\"v\"]]"];
-    match r.below(3) {
+    match r.below(4) {
+        3 => {
+            // long and full of multi-byte characters (raw, or as the content of base64url text that is not a disclosure)
+            let f = r.pick(&multibyte_fillers()).clone();
+            let cut: String = f.chars().take(r.range(60, 1400)).collect();
+            match r.below(3) {
+                0 => ("garbage-long-multibyte", cut),
+                1 => ("garbage-long-multibyte", b64(cut.as_bytes())),
+                _ => ("garbage-long-multibyte", b64(format!("[\"s\",\"n\",\"{}\",\"extra\"]", cut).as_bytes())),
+            }
+        }
         0 => ("garbage-non-base64", r.pick(&nonb64).to_string()),
         1 => ("garbage-non-json", b64(r.pick(&nonjson).as_bytes())),
         _ => ("garbage-odd-json", b64(r.pick(&odd_json).as_bytes())),
